@@ -347,3 +347,22 @@ PROPS["C18"] = dict(
              "history:lookup-map-present", "deep-copy/parse-of-dump-checks"],
     assumptions=["model equality jm::equal_unordered (objects as key->value maps, numbers by kind and bits)"],
 )
+
+# ------------------------------------------------------------------------------------------------ C19
+PROPS["C19"] = dict(
+    title="ParseSchema updates exactly the members the existing document declares",
+    rule=("(existing document, valid text) pairs without duplicate keys: the full 11x11 kind matrix {null,bool,uint,int,double,string,[],"
+          "array of scalars, array containing objects, {}, non-empty object} at the root and at a declared key between two untouched "
+          "members (x8 instances, thorough x200); generated pairs where the text is derived from the existing value (declared keys in "
+          "shuffled order with values of any kind, omitted keys, undeclared keys with container values that the scanner must skip, "
+          "nesting to depth 4) with 1..4 texts applied in sequence; documents built by Parse or through the mutation API; pool and "
+          "ledger allocators. Oracle: result read through the accessor API == the merge defined by the statement, no parse error, "
+          "Dump() re-reads to the same value; ASan; ledger (bad free; nothing live after destruction); distinct = hash(existing, texts)"),
+    runs=[
+        dict(name="asan-hsw", src="schema_harness.cpp", cfg="asan-hsw", env=ASAN_ENV),
+        dict(name="asan-wsm", src="schema_harness.cpp", cfg="asan-wsm", env=ASAN_ENV, tiers=("thorough",)),
+    ],
+    require=["(existing,text)-applications", "texts-with-undeclared-container-valued-keys", "repeated-applications(2..4 texts)", "allocator:pool",
+             "allocator:ledger", "shape:text-array-containing-object-onto-existing-object", "shape:merge-depth>=3", "ledger-quiescent-checks"],
+    assumptions=["merge model written from the property statement; at the root an empty object text leaves a non-empty object unchanged (keys the text omits)"],
+)
